@@ -62,9 +62,9 @@ Check (eq_refl : spec_subscript (DConcrete (TList T_INT)) DConstInteger = Some T
 Check (eq_refl : spec_subscript (DConcrete T_STRING) DConstInteger = None).
 Check (C05_generated_code_is_typed : forall E cb c, bu_code (build_callback E cb) = Some c -> code_typed E c).
 Check (C05_code_typed_refuses).
-Check (eq_refl : code_typed = fun E c => Forall (block_ok E (c_locals c)) (c_blocks c)).
-Check (eq_refl : block_ok = fun E locals b => Forall (stmt_ok E locals) (b_stmts b) /\ term_ok (b_term b)).
+Check (eq_refl : code_typed = fun E c => Forall (block_ok_final E (c_locals c)) (c_blocks c)).
+Check (eq_refl : block_ok_final = fun E locals b => Forall (stmt_ok E locals) (b_stmts b) /\ term_ok_final (b_term b)).
 Check (eq_refl : stmt_ok = fun E locals st => match st with TAssign l rv => exists ty, nth_error locals l = Some ty /\ rv_ok E rv ty | TExec rv => rv_ok E rv T_VOID | TObserve _ _ _ => True end).
-Check (eq_refl : term_ok = fun t => match t with Some (TmBrCond c _ _) => concrete (operand_tdesc c) = Some T_BOOL | _ => True end).
+Check (eq_refl : term_ok_final = fun t => match t with Some (TmBrCond c _ _) => concrete (operand_tdesc c) = Some T_BOOL | _ => True end).
 Check (eq_refl : (fun E a b ty => rv_ok E (RBinary BoMul a b) ty) = fun E a b ty => spec_binary E (OArith false) (operand_tdesc a) (operand_tdesc b) = Some ty).
 Check (eq_refl : (fun E a ty => rv_ok E (RCopy a) ty) = fun E a ty => spec_assignable E ty (operand_tdesc a) = true).
